@@ -33,6 +33,9 @@ def check(run):
     for i in range(3000 if thorough else 500):
         specs.append(strgen.build(r, "R%d" % i, ["EnumString"], fieldless=True, naming_bias=0.75, max_n=8,
                                   capture_types=["String", "BoxStr"]))
+    for i, sp in enumerate(specs):
+        if i % 7 == 6 and sp.name.startswith("R"):
+            strgen.add_overlap(r, sp)      # inputs claimed by two variants are not judged; all others must agree in both twins
     units = []
     spec_by_unit = {}
     pairs = []
